@@ -316,6 +316,66 @@ func c08Siblings(r *core.Run, p *route.Parser) {
 // c08RoutesLists: method lists given to Routes in one string. An item that is no HTTP method (an empty item, two
 // names run together by white space, a misspelling) makes the registration fail loudly; the others register
 // every method they name.
+// c08Spellings: the same route spelled with other spacing after ':' and ',' is the same route - registered
+// after its twin it is refused as a duplicate (for the same method; another method takes it). Registered through the Flame in every order of every pair of spellings.
+func c08Spellings(r *core.Run) {
+	base := []string{"/u/{id: /[0-9]+/}/p", "/f/{p: **, capture: 2}/r", "/{a: /x+/, b: /y+/}/z/{c}", "/o/{q: /[a-z]+/}/?{t: /[0-9]+/}", "/m/{m: **}", "/v/{k: /a|b/}-{j: /c/}/w/{i}"}
+	spell := func(t string, k int) string {
+		switch k {
+		case 1:
+			return strings.NewReplacer(": ", ":", ", ", ",").Replace(t)
+		case 2:
+			return strings.NewReplacer(": ", ":   ", ", ", ",  ").Replace(t)
+		case 3:
+			return strings.NewReplacer(": ", ":", ", ", ",   ").Replace(t)
+		}
+		return t
+	}
+	l := core.NewLocal()
+	r.Bounds["spellings"] = fmt.Sprintf("%d routes x every ordered pair of 4 spellings of the blanks after ':' and ','", len(base))
+	for _, t := range base {
+		for a := 0; a < 4; a++ {
+			for b := 0; b < 4; b++ {
+				if a == b {
+					continue
+				}
+				ta, tb := spell(t, a), spell(t, b)
+				if ta == tb {
+					continue
+				}
+				l.Evals++
+				l.Transitions += 2
+				l.Traces++
+				l.States++
+				l.NonTrivial++
+				f := flamego.NewWithLogger(io.Discard)
+				reg := func(meth, text, tag string) (pv interface{}) {
+					defer func() { pv = recover() }()
+					f.Route(meth, text, []flamego.Handler{func(c flamego.Context) { c.ResponseWriter().WriteHeader(204) }})
+					return nil
+				}
+				cs := c08Case{Registered: []string{ta}, RegMethods: []string{"GET"}, Candidate: tb, Method: "GET", Flame: true}
+				if pv := reg("GET", ta, "first"); pv != nil {
+					l.Violate("flame/rejected-but-wellformed/spelling", fmt.Sprintf("%q refused: %v", ta, pv), c08Case{Candidate: ta, Method: "GET", Flame: true})
+					continue
+				}
+				if pv := reg("GET", tb, "second"); pv == nil {
+					l.Class("mismatch")
+					l.Violate("flame/accepted-but-must-reject/duplicate route/other-spelling", fmt.Sprintf("%q is accepted for GET although %q, the same route spelled with other blanks, is registered for GET", tb, ta), cs)
+					continue
+				}
+				if pv := reg("POST", tb, "post"); pv != nil {
+					l.Class("mismatch")
+					l.Violate("flame/rejected-but-wellformed/spelling-other-method", fmt.Sprintf("%q refused for POST after %q was registered for GET only: %v", tb, ta, pv), cs)
+					continue
+				}
+				l.Class("candidate:reject")
+			}
+		}
+	}
+	r.Merge(l)
+}
+
 func c08RoutesLists(r *core.Run) {
 	valid := map[string][]string{"GET": {"GET"}, "GET,POST": {"GET", "POST"}, "GET, POST": {"GET", "POST"}, " get ,post ": {"GET", "POST"}, "put,PATCH,delete": {"PUT", "PATCH", "DELETE"}}
 	invalid := []string{"GET POST", "GET\tPOST", "GET,", ",GET", "GET,,POST", "GET, ,POST", ",", " ", "", "GETT", "GET,BREW", "GET;POST", "GET\nPOST"}
@@ -514,6 +574,7 @@ func c08Run(r *core.Run) {
 	c08Deep(r, p)
 	c08Siblings(r, p)
 	c08RoutesLists(r)
+	c08Spellings(r)
 
 	// flame level: methods, panics
 	methods := []string{"GET", "POST", "PUT", "DELETE", "PATCH", "OPTIONS", "HEAD", "CONNECT", "TRACE", "*", "get", "BREW", "", "GET,POST", " GET"}
